@@ -62,6 +62,27 @@ def dense(G, U, rng, shape, fields):
     return e
 
 
+def sparse(G, U, rng, n, for_inv):
+    """A matrix written entry by entry (as_matrix of scalars) with literal zeros at random places - the lowering
+    tables see structural Zero entries.  For inv the diagonal is kept dominant."""
+    rows = []
+    for r in range(n):
+        row = []
+        for c in range(n):
+            z = rng.random() < 0.35
+            if for_inv and r == c:
+                row.append(4 + 0.25 * ufl.tanh(G.expr((), 0)))
+            elif z:
+                row.append(0)
+            else:
+                e = G.expr((), rng.choice([0, 0, 1]))
+                row.append(0.5 * ufl.tanh(e) if for_inv else e)
+        rows.append(row)
+    if all(x == 0 for row in rows for x in row if not hasattr(x, "ufl_shape")) and all(not hasattr(x, "ufl_shape") for row in rows for x in row):
+        rows[0][0] = G.expr((), 0)
+    return ufl.as_matrix(rows)
+
+
 def build(rng, U, G, op):
     g = U.gdim
     fi = rng.random() < 0.25
@@ -98,9 +119,12 @@ def build(rng, U, G, op):
         return ufl.transpose(maybe_fi(dense(G, U, rng, sh, True))), (sh,)
     if op in ("tr", "det", "inv", "cofac", "dev", "skew", "sym"):
         n = rng.choice({"tr": [1, 2, 3, 4], "det": [1, 2, 3, 4], "inv": [1, 2, 3, 4], "cofac": [2, 3, 4], "dev": [2, 3], "skew": [2, 3, 4], "sym": [2, 3, 4]}[op])
-        A = dense(G, U, rng, (n, n), True)
-        if op in ("inv",):
-            A = A + 5 * ufl.Identity(n) if rng.random() < 0.5 else A
+        if n >= 2 and rng.random() < 0.3:
+            A = sparse(G, U, rng, n, op == "inv")
+        else:
+            A = dense(G, U, rng, (n, n), True)
+            if op in ("inv",):
+                A = A + 5 * ufl.Identity(n) if rng.random() < 0.5 else A
         return getattr(ufl, op)(maybe_fi(A) if op not in ("det", "inv", "cofac") or not fi else A), ((n, n),)
     if op in ("div", "nabla_div"):
         sh = rng.choice([(g,), (2, g), (g, g)]) if op == "div" else rng.choice([(g,), (g, 2), (g, g)])
